@@ -12,3 +12,33 @@ Theorem C26_pair_sound :
     is_derive (fun t => evalR (upd rho c t) e) (rho c) (evalR rho d).
 Proof. exact pair_sound. Qed.
 Print Assumptions C26_pair_sound.
+
+(* EQConstraintComp / BalanceComp: for all real lhs, rhs, mult (variables 0, 1, 2) and both normalisation
+   branches, the three declared partials of the code are the partial derivatives of
+   (mult*lhs - rhs) * scale(rhs).  The components are elementwise, so this covers every shape. *)
+Theorem C26_eq_elem_partials_correct :
+  forall normalize use_mult small rho,
+    (normalize = true -> small = false -> rho 1%nat <> 0%R) ->
+    let out := fst (elem normalize use_mult small) in
+    let d := snd (elem normalize use_mult small) in
+    is_derive (fun t => evalR (upd rho 0 t) out) (rho 0%nat) (evalR rho (fst (fst d))) /\
+    is_derive (fun t => evalR (upd rho 1 t) out) (rho 1%nat) (evalR rho (snd (fst d))) /\
+    (use_mult = true -> is_derive (fun t => evalR (upd rho 2 t) out) (rho 2%nat) (evalR rho (snd d))).
+Proof. exact eq_elem_partials_correct. Qed.
+Print Assumptions C26_eq_elem_partials_correct.
+
+(* Dot products of two variable blocks of ANY length n (the rows of DotProductComp, MatrixVectorProductComp,
+   LinearSystemComp and the radicand of VectorMagnitudeComp): the symbolic derivative evaluates to the
+   indicator sum, and the partial with respect to the j-th entry of one block is the j-th entry of the other. *)
+Theorem C26_edot_D :
+  forall n o1 o2 rho x, evalR rho (D x (e_dot (evars o1 n) (evars o2 n))) = dsum n o1 o2 rho x.
+Proof. exact edot_D. Qed.
+Print Assumptions C26_edot_D.
+
+Theorem C26_dot_row_partial :
+  forall n o1 o2 rho j,
+    (j < n)%nat -> (forall k, (k < n)%nat -> o2 + k <> o1 + j)%nat ->
+    is_derive (fun t => evalR (upd rho (o1 + j) t) (e_dot (evars o1 n) (evars o2 n)))
+              (rho (o1 + j)%nat) (rho (o2 + j)%nat).
+Proof. exact dot_row_partial. Qed.
+Print Assumptions C26_dot_row_partial.
